@@ -286,6 +286,16 @@ def refresher_rearms(chk, prog):
         woken = [k for k, e in enumerate(ev) if e[0] == 'woken']
         reads = [k for k, e in enumerate(ev) if e[0] == 'stmt' and e[2] == 'SELECT' and k > (woken[0] if woken else -1)]
         ob.verify(ex, 'refresher-reads-the-database-after-a-wake', bool(woken) and bool(reads))
+        # what the re-sync does: an id whose delivery was completed (external Acknowledge) or expired leaves the pending set and the sender is woken
+        drow = db.t['Delivery'][0]
+        nows = stdlib.clock(ex)['nows']
+        if nows:
+            gone = Or(Not(drow.isnull('completed_at')), drow.v['expires_at'] < nows[0])
+            kept = And(drow.isnull('completed_at'), drow.v['expires_at'] >= nows[-1])
+            still = any(ex.eq(k, pid) is True for k, _ in pend.ents)
+            ob.verify(ex, 'externally-acked-or-expired-id-leaves-the-pending-set', Implies(gone, not still))
+            ob.verify(ex, 'still-outstanding-id-stays-pending', Implies(kept, still))
+            ob.verify(ex, 'sender-woken-when-capacity-was-freed', Implies(gone, len(woke) >= 1))
         if woken and reads:
             live = set()
             for k, e in enumerate(ev[:reads[0]]):
